@@ -77,6 +77,14 @@ def batches(tier):
             dict(name="seeds", runs=64, budget_s=25, per_run_timeout=180)]
 
 
+def vacuous(stats, probes):
+    n, bad = stats.get("build_runs", 0), stats.get("solo_failed_runs", 0)
+    if n >= 20 and bad > 0.5 * n:
+        return ("in %d of %d builds the reference run of a task on its own (valid inputs, empty build directory) "
+                "ends in an exception, so those builds compare failures with failures" % (bad, n))
+    return None
+
+
 def describe():
     return {
         "rule": "build: tape-generated cmake-style builds (1-2 pybind modules with submodule files, 0-2 "
@@ -713,7 +721,7 @@ def run_build(tape, ctx):
         "violations": viol, "digest": w.digest(),
         "nontrivial": ntasks >= 2 or bool(w.faults_fired),
         "stats": {"build_runs": 1, "tasks": ntasks, "tasks_script_mode": sum(1 for s in sc["tasks"] if s["mode"] == 0),
-                  "solo_failed_runs": int(solo_failed), "context_switches": w.switches,
+                  "solo_failed_runs": int(solo_failed), "build_runs": 1, "context_switches": w.switches,
                   "runs_with_diffs": int(bool(diffs))},
         "faults": dict(w.faults_fired, **({"stale-output": len(stale)} if stale else {})),
         "probes": w.probes, "steps": w.step, "interleaving": inter, "state_fps": sorted(obs.state_fps)[:64],
